@@ -346,6 +346,13 @@ func (c *streamCtx) dirC15() []genCase {
 				b.util(110, 0, true, false) // delta 1 with two untainted nodes... (2*(110-70)/70 = 1.14 -> 2)
 				b.done()
 				out = append(out, single(s, fmt.Sprintf("C15 untaint k=%d pos=%d second=%d", k, p, second)))
+				// a concurrent writer removes the first foreign taint between escalator's read and its write: the write is
+				// refused with 409 Conflict; whatever escalator does next must still be a precise write (or none)
+				if second < 0 && k >= 1 && (c.thorough || k <= 3) {
+					s2 := cloneSpec(s)
+					s2.Groups[0].K8s.Conflict = []string{n.Name}
+					out = append(out, single(s2, fmt.Sprintf("C15 untaint conflict k=%d pos=%d", k, p)))
+				}
 			}
 		}
 		// taint: appended after k foreign taints, for every configured effect
@@ -363,6 +370,11 @@ func (c *streamCtx) dirC15() []genCase {
 			b.util(5, 0, true, false)
 			b.done()
 			out = append(out, single(s, fmt.Sprintf("C15 taint k=%d effect=%q", k, eff)))
+			if eff == "" {
+				s2 := cloneSpec(s)
+				s2.Groups[0].K8s.Conflict = []string{n.Name}
+				out = append(out, single(s2, fmt.Sprintf("C15 taint conflict k=%d", k)))
+			}
 		}
 	}
 	// the API server's copy differs from the listed one: the write is built from the API copy
